@@ -3,7 +3,8 @@
 BIP43 serialisation, bound to spec/HDWallet.tla.
 
 Stage A  MC_HDWallet (toy size: small curve, toy hashes, 32 one-letter words, 8/16-bit entropy): every order of
-         New / FromMnemonic / restore for up to 2 (thorough: 2 with longer query chains, and 3) wallets, interleaved with
+         New / FromMnemonic / restore for up to 2 (thorough: also 2 with longer query chains, 3, and 2 without the
+         partial-order reduction) wallets, interleaved with
          RootKeys / XKeysFromPath / XPubOf / P2pkhOf / DeriveChild chains: NoSharedState, FreshEntropy, NewIsFresh, Immutable,
          QueriesPure, Consistent, Restore, OutCorrect.  Vacuity guard: with ClassLevelMnemonic = TRUE (the mnemonic given to
          FromMnemonic remembered at class level) TLC must report NoSharedState, NewIsFresh and Immutable violated; the
@@ -353,6 +354,7 @@ def _stage_a_jobs(ctx, ex):
     if not q:
         jobs["MC_HDWallet_t.cfg"] = ex.submit(vlib.tlc, "MC_HDWallet", "MC_HDWallet_t.cfg", workers=8, timeout=1500, heap="3g", env=gc)
         jobs["MC_HDWallet_t3.cfg"] = ex.submit(vlib.tlc, "MC_HDWallet", "MC_HDWallet_t3.cfg", workers=8, timeout=1500, heap="3g", env=gc)
+        jobs["MC_HDWallet_ti.cfg"] = ex.submit(vlib.tlc, "MC_HDWallet", "MC_HDWallet_ti.cfg", workers=8, timeout=1500, heap="3g", env=gc)
     for dev in ("shared", "fresh", "immutable"):
         jobs[f"dev_{dev}"] = ex.submit(vlib.tlc, "MC_HDWallet", f"MC_HDWallet_dev_{dev}.cfg", workers=1, timeout=600, heap="2g", env=LIGHT_JVM)
     return jobs
@@ -362,7 +364,10 @@ STAGE_A_CONSTANTS = {
     "MC_HDWallet_q.cfg": "2 wallets; New x {'', 'p'} x strength {8, 16, 12(invalid)}; FromMnemonic x {valid, bad checksum}; restore; "
                          "paths {m, m/0'}; chains XPubOf / P2pkhOf / DeriveChild(1, 0') of depth 1; curve S1, toy hashes",
     "MC_HDWallet_t.cfg": "2 wallets; as q with paths over {0, 0'} up to length 2, DeriveChild(1, 1') chains to depth 2",
-    "MC_HDWallet_t3.cfg": "3 wallets, every order of creation (Interleave = TRUE), root keys and one path",
+    "MC_HDWallet_t3.cfg": "3 wallets; New x {'', 'p'} x strength {8, 12(invalid)}; FromMnemonic x {valid, bad checksum}; restore; root keys, "
+                          "XPubOf / P2pkhOf on them",
+    "MC_HDWallet_ti.cfg": "2 wallets, Interleave = TRUE: creations and queries in EVERY order (no reduction); strength {8, 12}, "
+                          "paths {m, m/0'}, DeriveChild(0')",
 }
 REQUIRED_REFUSALS = {("new", "bad-strength"), ("child", "hardened-from-public"), ("child", "invalid-child"), ("p2pkh", "not-an-xpub"),
                      ("from", "invalid-master")}
@@ -383,7 +388,7 @@ def _stage_a_eval(ctx, res):
         for p in r.prints:
             if isinstance(p, list) and len(p) == 3 and p[0] == "B":
                 census[(p[1], p[2])] = census.get((p[1], p[2]), 0) + 1
-        if cfg != "MC_HDWallet_t3.cfg":
+        if cfg in ("MC_HDWallet_q.cfg", "MC_HDWallet_t.cfg"):
             missing = REQUIRED_REFUSALS - set(census)
             if missing:
                 raise vlib.MachineryFailure(f"stage A {cfg}: refusal classes never reached (vacuous model): {sorted(missing)}")
@@ -777,10 +782,21 @@ def _rand_index(rnd):
     return rnd.randrange(0, 2 * H)
 
 
+def _lib_const(name, default):
+    """purpose / coin-type child numbers as the library defines them (judged separately by the bip44 event)"""
+    try:
+        import bits.bips.bip44 as b44
+        v = b44.BIP44_PURPOSE_CONST if name == "purpose" else b44.coin_type(name)
+        return v if isinstance(v, int) and 0 <= v < 2 ** 32 else default
+    except Exception:  # noqa
+        return default
+
+
 def _rand_path(rnd, maxlen):
     r = rnd.random()
     if r < 0.3:                                   # BIP44: m / 44' / coin' / account' / change / index (a prefix of it)
-        full = [H + 44, H + rnd.choice([0, 1]), H + rnd.randrange(3), rnd.randrange(2), rnd.randrange(30)]
+        full = [_lib_const("purpose", H + 44), _lib_const(rnd.choice(["BTC", "Testnet (all coins)"]), H), H + rnd.randrange(3),
+                rnd.randrange(2), rnd.randrange(30)]
         return full[:rnd.randrange(1, min(maxlen, 5) + 1)]
     return [_rand_index(rnd) for _ in range(rnd.randrange(0, maxlen + 1))]
 
@@ -1023,12 +1039,34 @@ def _judge(histories, tag, bins, workers):
     return verdicts, stats
 
 
+def bip44_history():
+    """the BIP44 / SLIP44 constants of the library (all the BIP44 code there is), as one stateless event"""
+    def val(fn):
+        r = run_call(fn)
+        v = r.get("ok")
+        return ser32(v) if isinstance(v, int) and not isinstance(v, bool) and 0 <= v < 2 ** 32 else [-1, -1, -1, -1]
+
+    def purpose():
+        import bits.bips.bip44 as b44
+        return b44.BIP44_PURPOSE_CONST
+
+    def coin(name):
+        def f():
+            import bits.bips.bip44 as b44
+            return b44.coin_type(name)
+        return f
+
+    return {"script": [], "src": "C-bip44",
+            "ev": [{"op": "bip44", "purpose": val(purpose), "btc": val(coin("BTC")), "test": val(coin("Testnet (all coins)")),
+                    "res": {"ok": True, "v": []}, "key": [], "views": []}]}
+
+
 def _prepare_c(ctx, mm, rnd):
     """record the seeded random histories (real code, main thread) and build vector / self-test histories"""
     q = ctx.tier == "quick"
     vecs = _trezor_vectors()
     nh, budget = (10, 9) if q else (96, 16)
-    hs = [gen_history(rnd, n % 4, mm, vecs, budget) for n in range(nh)]
+    hs = [gen_history(rnd, n % 4, mm, vecs, budget) for n in range(nh)] + [bip44_history()]
     vh = vector_histories(ctx)
     tests = _selftests(hs + vh)
     allh = hs + vh + [b for b, _k, _c in tests]
@@ -1091,6 +1129,8 @@ def _case_of(hst, k, e, explained):
         c.update(key=_text(e["key"]))
     if e["op"] == "child":
         c.update(index=int.from_bytes(bytes(e["i"]), "big"))
+    if e["op"] == "bip44":
+        c.update(purpose=e["purpose"], bitcoin=e["btc"], testnet=e["test"])
     c["returned"] = [_text(v) for v in e["res"]["v"]] if e["res"]["ok"] else f"raised {e.get('note')}"
     if e["op"] in ("new", "from") and e["views"]:
         v = e["views"][-1]
